@@ -85,6 +85,19 @@ pub struct SrcState {
     pub cur: Vec<Item>,
     pub hist: Vec<(u32, Vec<Item>)>,
     pub timing: Timing,
+    /// a source that publishes its next version right after handing out a snapshot or a diff (before the
+    /// server has written the End of Data)
+    pub race: bool,
+}
+
+impl SrcState {
+    fn advance_if_racing(&mut self) {
+        if !self.race { return }
+        let (os, oc) = (self.serial, self.cur.clone());
+        self.hist.insert(0, (os, oc));
+        self.serial = self.serial.wrapping_add(1);
+        if let Some(p) = self.cur.iter().position(|i| *i == Item::Origin(11)) { self.cur.remove(p); } else { self.cur.push(Item::Origin(11)); self.cur.sort(); }
+    }
 }
 
 #[derive(Clone)]
@@ -105,18 +118,22 @@ impl PayloadSource for HistSource {
     fn ready(&self) -> bool { true }
     fn notify(&self) -> State { let s = self.0.lock().unwrap(); State::from_parts(s.session, Serial(s.serial)) }
     fn full(&self) -> (State, SetIter) {
-        let s = self.0.lock().unwrap();
-        (State::from_parts(s.session, Serial(s.serial)), SetIter { items: s.cur.iter().map(|i| payload_of(*i)).collect(), idx: 0 })
+        let mut s = self.0.lock().unwrap();
+        let res = (State::from_parts(s.session, Serial(s.serial)), SetIter { items: s.cur.iter().map(|i| payload_of(*i)).collect(), idx: 0 });
+        s.advance_if_racing();
+        res
     }
     fn diff(&self, state: State) -> Option<(State, DiffIter)> {
-        let s = self.0.lock().unwrap();
+        let mut s = self.0.lock().unwrap();
         if state.session() != s.session { return None; }
         let ser = u32::from(state.serial());
         let old: Vec<Item> = if ser == s.serial { s.cur.clone() } else { s.hist.iter().find(|e| e.0 == ser)?.1.clone() };
         let mut items = Vec::new();
         for x in &old { if !s.cur.iter().any(|y| same_key(*x, *y)) { items.push((payload_of(*x), Action::Withdraw)); } }
         for y in &s.cur { if !old.contains(y) { items.push((payload_of(*y), Action::Announce)); } }
-        Some((State::from_parts(s.session, Serial(s.serial)), DiffIter { items, idx: 0 }))
+        let res = Some((State::from_parts(s.session, Serial(s.serial)), DiffIter { items, idx: 0 }));
+        s.advance_if_racing();
+        res
     }
     fn timing(&self) -> Timing { self.0.lock().unwrap().timing }
 }
@@ -184,7 +201,7 @@ pub fn exec(toks: &[&str]) -> String {
                 let serial0: u32 = 4294967294;
                 let src = HistSource(Arc::new(Mutex::new(SrcState {
                     session: session0, serial: serial0, cur: vec![Item::Origin(0), Item::Key(0), Item::Aspa(0, 1)],
-                    hist: vec![], timing: Timing { refresh: 1800, retry: 300, expire: 7000 } })));
+                    hist: vec![], timing: Timing { refresh: 1800, retry: 300, expire: 7000 }, race: false })));
                 let c2r = Pipe::default(); let r2s = Pipe::default(); let s2c = Pipe::default();
                 let server_sock = Sock { rx: r2s.clone(), tx: s2c.clone() };
                 let mut notify = NotifySender::new();
@@ -223,8 +240,16 @@ pub fn exec(toks: &[&str]) -> String {
                                 let ver = if upd.iter().any(|(_, p)| matches!(p, Payload::Aspa(_))) { 2 } else { negotiated };
                                 let _ = ver;
                                 let mut have = data.clone(); have.sort();
-                                let st_ok = st.map(|x| x.session() == s.session && u32::from(x.serial()) == s.serial).unwrap_or(false);
-                                if verdict.is_empty() && have != restrict(negotiated, &s.cur) { verdict = "DATA-MISMATCH".into(); }
+                                // the data the source reported for the state the client now holds (the state named in the
+                                // End of Data): the current one, or - with a racing source - the one handed out last
+                                let reported: Option<Vec<Item>> = st.and_then(|x| {
+                                    if x.session() != s.session { None }
+                                    else if u32::from(x.serial()) == s.serial && !s.race { Some(s.cur.clone()) }
+                                    else if s.race { s.hist.iter().find(|e| e.0 == u32::from(x.serial())).map(|e| e.1.clone()).filter(|_| s.hist.first().map(|e| e.0) == Some(u32::from(x.serial()))) }
+                                    else { None }
+                                });
+                                let st_ok = reported.is_some();
+                                if verdict.is_empty() && st_ok && have != restrict(negotiated, reported.as_ref().unwrap()) { verdict = "DATA-MISMATCH".into(); }
                                 if verdict.is_empty() && !st_ok { verdict = "STATE-MISMATCH".into(); }
                                 if verdict.is_empty() && negotiated >= 1 && (timing.refresh != s.timing.refresh || timing.retry != s.timing.retry || timing.expire != s.timing.expire) { verdict = "TIMING-MISMATCH".into(); }
                                 let ups: Vec<String> = upd.iter().map(|(a, p)| {
@@ -249,6 +274,8 @@ pub fn exec(toks: &[&str]) -> String {
                         let Ok(n) = t.parse::<u32>() else { return "bad-op".to_string() };
                         let mut s = src.0.lock().unwrap();
                         s.timing = Timing { refresh: n, retry: 300 + n % 7, expire: 7200 + n };
+                    } else if e == "r1" || e == "r0" {
+                        src.0.lock().unwrap().race = e == "r1";
                     } else if e == "ns" {
                         let mut s = src.0.lock().unwrap();
                         s.session = new_session; new_session += 1; s.hist.clear();
@@ -289,6 +316,7 @@ pub fn generate(ctx: &mut Ctx) {
         ctx.case(&format!("case {} {} {} s", init, cap, st));
         ctx.case(&format!("case {} {} {} s u1:o1,k1,a0.2,a1.0 n s", init, cap, st));
         ctx.case(&format!("case {} {} {} u1:o1,o2 u0:o3,a0.3 s u1:- n s ns n s", init, cap, st));
+        ctx.case(&format!("case {} {} {} r1 s n s u1:o1,k1 n s r0 n s", init, cap, st));
     }}}
     for _ in 0..n {
         let init = rng.below(4);
@@ -302,6 +330,8 @@ pub fn generate(ctx: &mut Ctx) {
                 evs.push(format!("u{}:{}", if rng.chance(3, 4) { 1 } else { 0 }, if set.is_empty() { "-".into() } else { set.join(",") }));
             }
             if rng.chance(1, 12) { evs.push("ns".into()); }
+            // the source publishes again while a response is being written
+            if rng.chance(1, 10) { evs.push(if rng.chance(2, 3) { "r1".into() } else { "r0".into() }); }
             // the source's timing values change too, on a connection that stays open
             if rng.chance(1, 4) { evs.push(format!("t{}", rng.range(1, 86400))); }
             // the client waits for a Serial Notify (or its refresh timer) before every step but the first
